@@ -308,8 +308,15 @@ def judge(res: RuleResult, sh: ProcShape, kind: str, lang: str, file: str, fname
     else:
         accepted = _accepted_array_targets(start, now)
         if not any(t == a for a, _ in accepted):
-            if t == start + V("ahead") * V("capacity"):
-                bad("skip-target", "array skip target is `start + ahead * capacity` (sender capacity times receiver capacity): an extensible array of sender capacity a occupies 16 + a * element-bits", construct=show(t), witness="sender byte[9]', receiver byte[2]' followed by uint8 f: f decodes from bit 18 instead of bit 88; same schema bool[10]' + uint8: decode jumps to bit 100 of a 5-byte buffer (IndexError)")
+            def all_terms_have_ahead(p: Poly) -> bool:
+                return bool(p.terms) and all(any(a == ("var", "ahead") and e == 1 for a, e in m) for m in p.terms)
+
+            if t == start + V("ahead") * V("capacity") or t == start + C(16) + V("ahead") * V("capacity"):
+                bad("skip-target", "array skip target multiplies the sender's capacity with the receiver's capacity: an extensible array of sender capacity a occupies 16 + a * element-bits", construct=show(t), witness="sender byte[9]', receiver byte[2]' followed by uint8 f: f decodes from bit 18 instead of bit 88; same schema bool[10]' + uint8: decode jumps to bit 100 of a 5-byte buffer (IndexError)")
+            elif all_terms_have_ahead(t - start):
+                bad("skip-target", "array skip target is `start + ahead * X` without the 16 prefix bits: the sender's array occupies 16 + a * element-bits counted from the start position", construct=show(t), witness="sender byte[3]', receiver byte[2]' followed by uint8 f: f decodes 16 bits early")
+            elif not all_terms_have_ahead(t - start - C(16)):
+                bad("skip-target", "array skip target is not of the form start + 16 + ahead * (bits per element)", construct=show(t), witness="any extended array sender")
             else:
                 # anything that is not start + 16 + ahead * X
                 res.unsure(f"D3: {lang}:{fname}: array skip target `{show(t)}` is not one of the enumerated forms {sorted({d for _, d in accepted})}")
